@@ -165,6 +165,9 @@ type YieldRule struct {
 	Point string        `json:"point"`
 	Sleep time.Duration `json:"sleep"`
 	Prob  float64       `json:"prob"`
+	// Match, when set, restricts the rule to alerts carrying these label values (points without an
+	// alert never match then).
+	Match model.Labels `json:"match,omitempty"`
 }
 
 // Scenario is a complete case.
@@ -329,6 +332,17 @@ func RunWith(s *Scenario, dir string, custom sim.Script, beforeStop func(*sim.In
 			for _, y := range s.Yields {
 				if y.Point != point {
 					continue
+				}
+				if len(y.Match) > 0 {
+					ok := l != nil
+					for k, v := range y.Match {
+						if l[k] != v {
+							ok = false
+						}
+					}
+					if !ok {
+						continue
+					}
 				}
 				ymu.Lock()
 				hit := yr.Float64() < y.Prob
